@@ -1,4 +1,5 @@
 import OpusProofs.DecSkelFrame
+import OpusProofs.DecSkelShift
 /-
   OpusProofs.GainIndep — the decoder gain touches nothing but the gain pass: simulation of the decoder skeleton
   (`OpusModel/DecSkel.lean`, C01) under `gz` = "set `decode_gain` to 0 and erase the gain-pass events from the log".
@@ -86,20 +87,40 @@ theorem stepMainCelt_gz (o : Oracle) (b : Body) (red : Red) (r : Run) :
 
 theorem stepRedS2C_gz (o : Oracle) (b : Body) (red : Red) (r : Run) : stepRedS2C o b red (gz r) = gz (stepRedS2C o b red r) := by
   unfold stepRedS2C
-  simp only [gz_st, zg_channels, F2_5_zg, redArgs_zg, redBuf_zg, celtCall_gz, gzRes, apply_ite gz]
-  rw [gz_push (by rfl), gz_push (by rfl)]
+  simp only [gz_st, zg_channels, F2_5_zg, redArgs_zg, redBuf_zg, celtCall_gz, gzRes]
+  split
+  · rename_i h; rw [gz_push (by rfl), gz_push (by rfl)]
+  · rfl
 
 theorem stepRedCopy_gz (b : Body) (red : Red) (r : Run) : stepRedCopy b red (gz r) = gz (stepRedCopy b red r) := by
   unfold stepRedCopy
-  simp only [gz_st, zg_channels, zg_pm, zg_pr, F2_5_zg, redBuf_zg, apply_ite gz]
-  rw [gz_push (by rfl), gz_push (by rfl)]
-  split <;> simp_all
+  show (if red.redundancy ≠ 0 ∧ red.celt_to_silk ≠ 0 ∧ (r.st.prev_mode ≠ MODE_SILK ∨ r.st.prev_redundancy ≠ 0) then
+      ((gz r).push (.acc 5 (redBuf r.st red) (2 * F2_5 r.st * r.st.channels))).push
+        (.acc 6 b.pcm (2 * F2_5 r.st * r.st.channels)) else gz r) =
+    gz (if red.redundancy ≠ 0 ∧ red.celt_to_silk ≠ 0 ∧ (r.st.prev_mode ≠ MODE_SILK ∨ r.st.prev_redundancy ≠ 0) then
+      (r.push (.acc 5 (redBuf r.st red) (2 * F2_5 r.st * r.st.channels))).push
+        (.acc 6 b.pcm (2 * F2_5 r.st * r.st.channels)) else r)
+  split
+  · rw [gz_push (by rfl), gz_push (by rfl)]
+  · rfl
 
 theorem stepTransFade_gz (b : Body) (tr : Bool) (r : Run) : stepTransFade b tr (gz r) = gz (stepTransFade b tr r) := by
   unfold stepTransFade
-  simp only [gz_st, zg_channels, F5_zg, F2_5_zg, transBuf_zg, apply_ite gz]
-  rw [gz_push (by rfl), gz_push (by rfl), gz_push (by rfl), gz_push (by rfl)]
-  split <;> simp_all
+  show (if tr = true then
+      if b.audiosize ≥ F5 r.st then
+        ((gz r).push (.acc 7 (transBuf r.st) (2 * F2_5 r.st * r.st.channels))).push (.acc 8 b.pcm (2 * F2_5 r.st * r.st.channels))
+      else ((gz r).push (.acc 9 (transBuf r.st) (F2_5 r.st * r.st.channels))).push (.acc 10 b.pcm (F2_5 r.st * r.st.channels))
+    else gz r) =
+    gz (if tr = true then
+      if b.audiosize ≥ F5 r.st then
+        (r.push (.acc 7 (transBuf r.st) (2 * F2_5 r.st * r.st.channels))).push (.acc 8 b.pcm (2 * F2_5 r.st * r.st.channels))
+      else (r.push (.acc 9 (transBuf r.st) (F2_5 r.st * r.st.channels))).push (.acc 10 b.pcm (F2_5 r.st * r.st.channels))
+    else r)
+  split
+  · split
+    · rw [gz_push (by rfl), gz_push (by rfl)]
+    · rw [gz_push (by rfl), gz_push (by rfl)]
+  · rfl
 
 /-- the one place where the gain matters: with gain 0 nothing happens; otherwise one event, which `gz` erases -/
 theorem stepGain_gz (b : Body) (r : Run) : stepGain b (gz r) = gz (stepGain b r) := by
@@ -113,5 +134,625 @@ theorem celtStage_gz (o : Oracle) (b : Body) (red : Red) (tr : Bool) (r : Run) :
   unfold celtStage
   simp only [stepRedC2S_gz, stepMainCelt_gz, gzRes, stepRedS2C_gz, stepRedCopy_gz, stepTransFade_gz, stepGain_gz,
     stepFinish_gz]
+
+/-! ### SILK stage -/
+
+theorem silkStep_gz (o : Oracle) (lost fsz decoded : Int) (p : Ptr) (tell : Int) (r : Run) :
+    (silkStep o lost fsz decoded p tell (gz r)).err = (silkStep o lost fsz decoded p tell r).err ∧
+    (silkStep o lost fsz decoded p tell (gz r)).n = (silkStep o lost fsz decoded p tell r).n ∧
+    (silkStep o lost fsz decoded p tell (gz r)).tell = (silkStep o lost fsz decoded p tell r).tell ∧
+    (silkStep o lost fsz decoded p tell (gz r)).run = gz (silkStep o lost fsz decoded p tell r).run := by
+  by_cases c1 : (o.silk r.k
+      { payloadSize_ms := r.st.dc.payloadSize_ms, internalSampleRate := r.st.dc.internalSampleRate,
+        nChannelsInternal := r.st.dc.nChannelsInternal, nChannelsAPI := r.st.dc.nChannelsAPI,
+        API_sampleRate := r.st.dc.API_sampleRate, lostFlag := lost, newPacketFlag := if decoded = 0 then 1 else 0 }).1 ≠ 0 ∧ lost = 0
+  · have L : silkStep o lost fsz decoded p tell (gz r) = _ := if_pos c1
+    have R : silkStep o lost fsz decoded p tell r = _ := if_pos c1
+    rw [L, R]
+    exact ⟨rfl, rfl, rfl, by rw [gz_push (by rfl), gz_tick]; rfl⟩
+  · by_cases c2 : (o.silk r.k
+        { payloadSize_ms := r.st.dc.payloadSize_ms, internalSampleRate := r.st.dc.internalSampleRate,
+          nChannelsInternal := r.st.dc.nChannelsInternal, nChannelsAPI := r.st.dc.nChannelsAPI,
+          API_sampleRate := r.st.dc.API_sampleRate, lostFlag := lost, newPacketFlag := if decoded = 0 then 1 else 0 }).1 ≠ 0
+    · have L : silkStep o lost fsz decoded p tell (gz r) = _ := (if_neg c1).trans (if_pos c2)
+      have R : silkStep o lost fsz decoded p tell r = _ := (if_neg c1).trans (if_pos c2)
+      rw [L, R]
+      exact ⟨rfl, rfl, rfl, by rw [gz_push (by rfl), gz_push (by rfl), gz_tick]; rfl⟩
+    · have L : silkStep o lost fsz decoded p tell (gz r) = _ := (if_neg c1).trans (if_neg c2)
+      have R : silkStep o lost fsz decoded p tell r = _ := (if_neg c1).trans (if_neg c2)
+      rw [L, R]
+      exact ⟨rfl, rfl, rfl, by rw [gz_push (by rfl), gz_tick]; rfl⟩
+
+theorem silkLoop_gz (o : Oracle) (lost fsz : Int) :
+    ∀ (n : Nat) (decoded : Int) (p : Ptr) (tell : Int) (r : Run), (fsz - decoded).toNat ≤ n →
+      silkLoop o lost fsz decoded p tell (gz r) = gzRes (silkLoop o lost fsz decoded p tell r) := by
+  intro n
+  induction n with
+  | zero =>
+    intro decoded p tell r hn
+    obtain ⟨e1, e2, e3, e4⟩ := silkStep_gz o lost fsz decoded p tell r
+    rw [silkLoop]
+    conv => rhs; rw [silkLoop]
+    simp only [e1, e2, e3, e4]
+    by_cases c1 : (silkStep o lost fsz decoded p tell r).err ≠ 0
+    · simp only [if_pos c1]; rfl
+    · simp only [if_neg c1]
+      by_cases c2 : decoded + (silkStep o lost fsz decoded p tell r).n < fsz
+      · simp only [dif_pos c2]
+        by_cases c3 : (silkStep o lost fsz decoded p tell r).n ≤ 0
+        · simp only [dif_pos c3]; rfl
+        · omega
+      · simp only [dif_neg c2]; rfl
+  | succ n ih =>
+    intro decoded p tell r hn
+    obtain ⟨e1, e2, e3, e4⟩ := silkStep_gz o lost fsz decoded p tell r
+    rw [silkLoop]
+    conv => rhs; rw [silkLoop]
+    simp only [e1, e2, e3, e4]
+    by_cases c1 : (silkStep o lost fsz decoded p tell r).err ≠ 0
+    · simp only [if_pos c1]; rfl
+    · simp only [if_neg c1]
+      by_cases c2 : decoded + (silkStep o lost fsz decoded p tell r).n < fsz
+      · simp only [dif_pos c2]
+        by_cases c3 : (silkStep o lost fsz decoded p tell r).n ≤ 0
+        · simp only [dif_pos c3]; rfl
+        · simp only [dif_neg c3, gz_st, zg_channels]
+          exact ih _ _ _ _ (by omega)
+      · simp only [dif_neg c2]; rfl
+
+theorem silkConfig_zg (st : DecState) (b : Body) : silkConfig (zg st) b = (silkConfig st b).map zg := by
+  unfold silkConfig
+  simp only [zg_Fs, zg_sch, zg_dc]
+  split
+  · split
+    · split
+      · rfl
+      · split
+        · rfl
+        · split <;> rfl
+    · rfl
+  · rfl
+
+theorem ite_push_gz (c : Prop) [Decidable c] (r : Run) (e : Ev) (he : notGain e = true) :
+    (if c then (gz r).push e else gz r) = gz (if c then r.push e else r) := by
+  split
+  · rw [gz_push he]
+  · rfl
+
+theorem silkStage_gz (o : Oracle) (b : Body) (r : Run) : silkStage o b (gz r) = gzRes (silkStage o b r) := by
+  unfold silkStage
+  show (match silkConfig (zg r.st) b with
+    | none => (Out.abort, if r.st.prev_mode = MODE_CELT then (gz r).push Ev.silkReset else gz r)
+    | some st3 =>
+      bindRun (silkLoop o (silkLost b) b.audiosize 0 (if b.audiosize < F10 r.st then silkBuf r.st else b.pcm) 1
+          ((if r.st.prev_mode = MODE_CELT then (gz r).push Ev.silkReset else gz r).setSt st3)) fun et r1 =>
+        if et.1 ≠ 0 then (Out.ret et, r1)
+        else if b.audiosize < F10 r.st then
+          (Out.ret (0, et.2), (r1.push (.acc 1 (silkBuf r.st) (b.audiosize * r.st.channels))).push (.acc 2 b.pcm (b.audiosize * r.st.channels)))
+        else (Out.ret (0, et.2), r1)) = _
+  rw [ite_push_gz _ r Ev.silkReset rfl, silkConfig_zg]
+  dsimp only
+  cases hc : silkConfig r.st b with
+  | none => rfl
+  | some st3 =>
+    simp only [Option.map_some]
+    rw [← gz_setSt, silkLoop_gz o _ _ _ _ _ _ _ (Nat.le_refl _)]
+    apply bindRun_gz
+    intro et r1
+    by_cases c1 : et.1 ≠ 0
+    · simp only [if_pos c1]; rfl
+    · simp only [if_neg c1]
+      by_cases c2 : b.audiosize < F10 r.st
+      · simp only [if_pos c2, gzRes]
+        rw [gz_push (by rfl), gz_push (by rfl)]
+      · simp only [if_neg c2]; rfl
+
+/-! ### redundancy parse -/
+
+theorem redFinish_gz (a b c e f : Int) (r : Run) : redFinish a b c e f (gz r) = gzRes (redFinish a b c e f r) := by
+  unfold redFinish; split <;> rfl
+
+theorem redTail_gz (o : Oracle) (mode len red tell : Int) (r : Run) :
+    redTail o mode len red tell (gz r) = gzRes (redTail o mode len red tell r) := by
+  unfold redTail
+  simp only [gz_k, Run.tick_k]
+  split
+  · exact redFinish_gz _ _ _ _ _ r.tick.tick
+  · exact redFinish_gz _ _ _ _ _ r.tick
+
+theorem parseRedundancy_gz (o : Oracle) (mode len tell : Int) (r : Run) :
+    parseRedundancy o mode len tell (gz r) = gzRes (parseRedundancy o mode len tell r) := by
+  by_cases c0 : tell + 17 + (if mode = MODE_HYBRID then 20 else 0) ≤ 8 * len
+  · by_cases c1 : mode = MODE_HYBRID
+    · by_cases c2 : (o.bit r.k 12 tell).1 ≠ 0
+      · have L : parseRedundancy o mode len tell (gz r) = _ := (if_pos c0).trans ((if_pos c1).trans (if_pos c2))
+        have R : parseRedundancy o mode len tell r = _ := (if_pos c0).trans ((if_pos c1).trans (if_pos c2))
+        rw [L, R]; exact redTail_gz o _ _ _ _ r.tick
+      · have L : parseRedundancy o mode len tell (gz r) = _ := (if_pos c0).trans ((if_pos c1).trans (if_neg c2))
+        have R : parseRedundancy o mode len tell r = _ := (if_pos c0).trans ((if_pos c1).trans (if_neg c2))
+        rw [L, R]; rfl
+    · have L : parseRedundancy o mode len tell (gz r) = _ := (if_pos c0).trans (if_neg c1)
+      have R : parseRedundancy o mode len tell r = _ := (if_pos c0).trans (if_neg c1)
+      rw [L, R]; exact redTail_gz o _ _ _ _ r
+  · have L : parseRedundancy o mode len tell (gz r) = _ := if_neg c0
+    have R : parseRedundancy o mode len tell r = _ := if_neg c0
+    rw [L, R]; rfl
+
+theorem redStage_gz (o : Oracle) (b : Body) (tell : Int) (r : Run) : redStage o b tell (gz r) = gzRes (redStage o b tell r) := by
+  unfold redStage
+  split
+  · exact parseRedundancy_gz o _ _ _ _
+  · rfl
+
+/-! ### the frame body -/
+
+/-- A recursive-call parameter commutes with `gz`. -/
+def TransGz (t : Ptr → Int → Run → Res') : Prop := ∀ p n r, t p n (gz r) = gzRes (t p n r)
+
+theorem gain0Call_gz {t : Ptr → Int → Run → Res'} (ht : TransGz t) : TransGz (gain0Call t) := by
+  intro p n r
+  unfold gain0Call
+  show ((t p n (gz (r.setSt { r.st with decode_gain := 0 }))).1,
+        (t p n (gz (r.setSt { r.st with decode_gain := 0 }))).2.setSt
+          { (t p n (gz (r.setSt { r.st with decode_gain := 0 }))).2.st with decode_gain := 0 }) = _
+  rw [ht p n]
+  rfl
+
+theorem transCall_gz {t : Ptr → Int → Run → Res'} (ht : TransGz t) (b : Body) (r : Run) :
+    transCall t b (gz r) = gzRes (transCall t b r) := by
+  unfold transCall
+  show bindRun (gain0Call t (transBuf r.st) (min (F5 r.st) b.audiosize) (gz r)) (fun _ r' => (Out.ret (), r')) = _
+  rw [gain0Call_gz ht]
+  exact bindRun_gz _ _ (fun _ _ => rfl)
+
+theorem fbTail_gz (o : Oracle) {t : Ptr → Int → Run → Res'} (ht : TransGz t) (b : Body) (tr : Bool) (et : Int × Int) (r : Run) :
+    fbTail o t b tr et (gz r) = gzRes (fbTail o t b tr et r) := by
+  unfold fbTail
+  by_cases c0 : et.1 ≠ 0
+  · rw [if_pos c0, if_pos c0]; rfl
+  rw [if_neg c0, if_neg c0]
+  have hred := redStage_gz o b et.2 r
+  have h1 : (redStage o b et.2 (gz r)).1 = (redStage o b et.2 r).1 := by rw [hred]; rfl
+  have h2 : (redStage o b et.2 (gz r)).2 = gz (redStage o b et.2 r).2 := by rw [hred]; rfl
+  rw [h1, h2]
+  have hx : (if (if (redStage o b et.2 r).1.redundancy ≠ 0 then false else tr) = true ∧ b.mode ≠ MODE_CELT
+      then transCall t b (gz (redStage o b et.2 r).2) else (.ret (), gz (redStage o b et.2 r).2)) =
+      gzRes (if (if (redStage o b et.2 r).1.redundancy ≠ 0 then false else tr) = true ∧ b.mode ≠ MODE_CELT
+      then transCall t b (redStage o b et.2 r).2 else (.ret (), (redStage o b et.2 r).2)) := by
+    by_cases c1 : (if (redStage o b et.2 r).1.redundancy ≠ 0 then false else tr) = true ∧ b.mode ≠ MODE_CELT
+    · rw [if_pos c1, if_pos c1]; exact transCall_gz ht b _
+    · rw [if_neg c1, if_neg c1]; rfl
+  rw [hx]
+  apply bindRun_gz
+  intro _ r'
+  by_cases c2 : ¬ endbandOk b.bandwidth
+  · rw [if_pos c2, if_pos c2]; rfl
+  · rw [if_neg c2, if_neg c2]; exact celtStage_gz o b _ _ r'
+
+/-- **One `opus_decode_frame` with a packet.** -/
+theorem frameBody_gz (o : Oracle) {t : Ptr → Int → Run → Res'} (ht : TransGz t) (b : Body) (r : Run) :
+    frameBody o t b (gz r) = gzRes (frameBody o t b r) := by
+  rw [frameBody_eq, frameBody_eq]
+  show bindRun (if wantTransition r.st b = true ∧ b.mode = MODE_CELT then transCall t b (gz r) else (.ret (), gz r))
+      (fun _ r1 => if b.audiosize > b.frame_size then (.ret BAD_ARG, r1)
+        else bindRun (if b.mode ≠ MODE_CELT then silkStage o b r1 else (.ret (0, 1), r1)) (fbTail o t b (wantTransition r.st b))) = _
+  have hx : (if wantTransition r.st b = true ∧ b.mode = MODE_CELT then transCall t b (gz r) else (.ret (), gz r)) =
+      gzRes (if wantTransition r.st b = true ∧ b.mode = MODE_CELT then transCall t b r else (.ret (), r)) := by
+    by_cases c1 : wantTransition r.st b = true ∧ b.mode = MODE_CELT
+    · rw [if_pos c1, if_pos c1]; exact transCall_gz ht b r
+    · rw [if_neg c1, if_neg c1]; rfl
+  rw [hx]
+  apply bindRun_gz
+  intro _ r1
+  by_cases c2 : b.audiosize > b.frame_size
+  · rw [if_pos c2, if_pos c2]; rfl
+  · rw [if_neg c2, if_neg c2]
+    have hy : (if b.mode ≠ MODE_CELT then silkStage o b (gz r1) else (.ret (0, 1), gz r1)) =
+        gzRes (if b.mode ≠ MODE_CELT then silkStage o b r1 else (.ret (0, 1), r1)) := by
+      by_cases c3 : b.mode ≠ MODE_CELT
+      · rw [if_pos c3, if_pos c3]; exact silkStage_gz o b r1
+      · rw [if_neg c3, if_neg c3]; rfl
+    rw [hy]
+    apply bindRun_gz
+    intro et r2; exact fbTail_gz o ht b _ et r2
+
+/-! ### concealment layers and one `opus_decode_frame` call (ported from the structure of OpusProofs/DecSkelShift.lean) -/
+
+theorem plcLoop_gz {i1 : Ptr → Int → Run → Res'} (ht : TransGz i1) (f20 ch frame_size : Int) :
+    ∀ (n : Nat) (audiosize : Int) (pcm : Ptr) (r : Run), audiosize.toNat ≤ n →
+      plcLoop i1 f20 ch frame_size audiosize pcm (gz r) = gzRes (plcLoop i1 f20 ch frame_size audiosize pcm r) := by
+  intro n
+  induction n with
+  | zero =>
+    intro audiosize pcm r hn
+    rw [plcLoop]
+    conv => rhs; rw [plcLoop]
+    rw [ht]
+    rcases hx : i1 pcm (min audiosize f20) r with ⟨out, r1⟩
+    cases out with
+    | ret ret =>
+      simp only [gzRes]
+      by_cases c1 : ret < 0
+      · simp only [if_pos c1]
+      · simp only [if_neg c1]
+        by_cases c2 : ret = 0
+        · simp only [dif_pos c2]
+        · simp only [dif_neg c2]
+          have : ¬ audiosize - ret > 0 := by omega
+          simp only [dif_neg this]
+    | abort => rfl
+    | hang => rfl
+  | succ n ih =>
+    intro audiosize pcm r hn
+    rw [plcLoop]
+    conv => rhs; rw [plcLoop]
+    rw [ht]
+    rcases hx : i1 pcm (min audiosize f20) r with ⟨out, r1⟩
+    cases out with
+    | ret ret =>
+      simp only [gzRes]
+      by_cases c1 : ret < 0
+      · simp only [if_pos c1]
+      · simp only [if_neg c1]
+        by_cases c2 : ret = 0
+        · simp only [dif_pos c2]
+        · simp only [dif_neg c2]
+          by_cases c3 : audiosize - ret > 0
+          · simp only [dif_pos c3]
+            exact ih _ _ _ (by omega)
+          · simp only [dif_neg c3]
+    | abort => rfl
+    | hang => rfl
+
+theorem abortStub_gz : TransGz (fun _ _ r => (Out.abort, r)) :=
+  fun _ _ _ => rfl
+
+theorem nullAfterClamp_gz (o : Oracle) {i1 : Ptr → Int → Run → Res'}
+    (ht : TransGz i1) (len : Int) (pcm : Ptr) (frame_size : Int) (r : Run) :
+    nullAfterClamp o i1 len pcm frame_size (gz r) = gzRes (nullAfterClamp o i1 len pcm frame_size r) := by
+  unfold nullAfterClamp
+  show (if (if r.st.prev_redundancy ≠ 0 then MODE_CELT else r.st.prev_mode) = 0 then
+      (Out.ret frame_size, (gz r).push (.acc 12 pcm (frame_size * r.st.channels)))
+    else if frame_size > F20 r.st then plcLoop i1 (F20 r.st) r.st.channels frame_size frame_size pcm (gz r)
+    else frameBody o (fun _ _ r => (Out.abort, r))
+      { data := none, len := len, pcm := pcm, frame_size := frame_size,
+        audiosize := if frame_size < F20 r.st then
+            if frame_size > F10 r.st then F10 r.st
+            else if (if r.st.prev_redundancy ≠ 0 then MODE_CELT else r.st.prev_mode) ≠ MODE_SILK ∧ frame_size > F5 r.st ∧ frame_size < F10 r.st then F5 r.st
+            else frame_size
+          else frame_size,
+        mode := if r.st.prev_redundancy ≠ 0 then MODE_CELT else r.st.prev_mode, bandwidth := 0, fec := 0 } (gz r)) =
+    gzRes (if (if r.st.prev_redundancy ≠ 0 then MODE_CELT else r.st.prev_mode) = 0 then
+      (Out.ret frame_size, r.push (.acc 12 pcm (frame_size * r.st.channels)))
+    else if frame_size > F20 r.st then plcLoop i1 (F20 r.st) r.st.channels frame_size frame_size pcm r
+    else frameBody o (fun _ _ r => (Out.abort, r))
+      { data := none, len := len, pcm := pcm, frame_size := frame_size,
+        audiosize := if frame_size < F20 r.st then
+            if frame_size > F10 r.st then F10 r.st
+            else if (if r.st.prev_redundancy ≠ 0 then MODE_CELT else r.st.prev_mode) ≠ MODE_SILK ∧ frame_size > F5 r.st ∧ frame_size < F10 r.st then F5 r.st
+            else frame_size
+          else frame_size,
+        mode := if r.st.prev_redundancy ≠ 0 then MODE_CELT else r.st.prev_mode, bandwidth := 0, fec := 0 } r)
+  generalize (if r.st.prev_redundancy ≠ 0 then MODE_CELT else r.st.prev_mode) = mode
+  by_cases c0 : mode = 0
+  · rw [if_pos c0, if_pos c0]; simp only [gzRes]; rw [gz_push (by rfl)]
+  · rw [if_neg c0, if_neg c0]
+    by_cases c1 : frame_size > F20 r.st
+    · rw [if_pos c1, if_pos c1]; exact plcLoop_gz ht _ _ _ _ _ _ _ (Nat.le_refl _)
+    · rw [if_neg c1, if_neg c1]
+      exact frameBody_gz o abortStub_gz
+        { data := none, len := len, pcm := pcm, frame_size := frame_size,
+          audiosize := if frame_size < F20 r.st then
+              if frame_size > F10 r.st then F10 r.st
+              else if mode ≠ MODE_SILK ∧ frame_size > F5 r.st ∧ frame_size < F10 r.st then F5 r.st else frame_size
+            else frame_size,
+          mode := mode, bandwidth := 0, fec := 0 } r
+
+theorem nullFrameGen_gz (o : Oracle) {i1 : Ptr → Int → Run → Res'}
+    (ht : TransGz i1) : TransGz (nullFrameGen o i1) := by
+  intro pcm n r
+  unfold nullFrameGen
+  show (if n < F2_5 r.st then (Out.ret BUFFER_TOO_SMALL, gz r)
+    else nullAfterClamp o i1 0 pcm (min (min n (r.st.Fs / 25 * 3)) r.st.frame_size) (gz r)) =
+    gzRes (if n < F2_5 r.st then (Out.ret BUFFER_TOO_SMALL, r)
+    else nullAfterClamp o i1 0 pcm (min (min n (r.st.Fs / 25 * 3)) r.st.frame_size) r)
+  split
+  · rfl
+  · exact nullAfterClamp_gz o ht _ _ _ _
+
+theorem nullFrameLeaf_gz (o : Oracle) :
+    TransGz (nullFrameLeaf o) := nullFrameGen_gz o abortStub_gz
+
+theorem nullFrame_gz (o : Oracle) :
+    TransGz (nullFrame o) := nullFrameGen_gz o (nullFrameLeaf_gz o)
+
+/-- `opus_decode_frame` on the same frame at a shifted packet offset. -/
+theorem decodeFrame_gz (o : Oracle) (data : Option Int) (len : Int) (pcm : Ptr)
+    (frame_size fec : Int) (r : Run) :
+    decodeFrame o (data) len pcm frame_size fec (gz r) =
+      gzRes (decodeFrame o data len pcm frame_size fec r) := by
+  unfold decodeFrame
+  show (if frame_size < F2_5 r.st then (Out.ret BUFFER_TOO_SMALL, gz r)
+    else if len ≤ 1 ∨ (data).isNone = true then
+      nullAfterClamp o (nullFrameLeaf o) len pcm (min (min frame_size (r.st.Fs / 25 * 3)) r.st.frame_size) (gz r)
+    else frameBody o (nullFrame o)
+      { data := data, len := len, pcm := pcm, frame_size := min frame_size (r.st.Fs / 25 * 3),
+        audiosize := r.st.frame_size, mode := r.st.mode, bandwidth := r.st.bandwidth, fec := fec }
+      ((gz r).push (.decInit ((data).getD 0) len))) =
+    gzRes (if frame_size < F2_5 r.st then (Out.ret BUFFER_TOO_SMALL, r)
+    else if len ≤ 1 ∨ data.isNone = true then
+      nullAfterClamp o (nullFrameLeaf o) len pcm (min (min frame_size (r.st.Fs / 25 * 3)) r.st.frame_size) r
+    else frameBody o (nullFrame o)
+      { data := data, len := len, pcm := pcm, frame_size := min frame_size (r.st.Fs / 25 * 3),
+        audiosize := r.st.frame_size, mode := r.st.mode, bandwidth := r.st.bandwidth, fec := fec }
+      (r.push (.decInit (data.getD 0) len)))
+  split
+  · rfl
+  · split
+    · exact nullAfterClamp_gz o (nullFrameLeaf_gz o) _ _ _ _
+    · rename_i hc
+      have hsome : ∃ x, data = some x := by
+        cases data with
+        | none => exact absurd (Or.inr rfl) hc
+        | some x => exact ⟨x, rfl⟩
+      obtain ⟨x, rfl⟩ := hsome
+      have hpush : (gz r).push (.decInit ((some x).getD 0) len) = gz (r.push (.decInit ((some x).getD 0) len)) := by
+        rw [gz_push (by rfl)]
+      rw [hpush]
+      exact frameBody_gz o (nullFrame_gz o)
+        { data := some x, len := len, pcm := pcm, frame_size := min frame_size (r.st.Fs / 25 * 3),
+          audiosize := r.st.frame_size, mode := r.st.mode, bandwidth := r.st.bandwidth, fec := fec } _
+
+
+/-! ### opus_decode_native -/
+
+theorem frameLoop_gz (o : Oracle) (pcm : Ptr) (frame_size pfs : Int) :
+    ∀ (sizes : List Nat) (off nb : Int) (r : Run),
+      frameLoop o pcm frame_size pfs sizes off nb (gz r) = gzRes (frameLoop o pcm frame_size pfs sizes off nb r) := by
+  intro sizes
+  induction sizes with
+  | nil => intro off nb r; rfl
+  | cons sz rest ih =>
+    intro off nb r
+    rw [frameLoop, frameLoop]
+    have hdf := decodeFrame_gz o (some off) sz (pcm.add (nb * r.st.channels)) (frame_size - nb) 0 r
+    show (match decodeFrame o (some off) sz (pcm.add (nb * r.st.channels)) (frame_size - nb) 0 (gz r) with
+      | (.ret ret, r1) => if ret < 0 then (Out.ret ret, r1) else if ret ≠ pfs then (Out.abort, r1)
+          else frameLoop o pcm frame_size pfs rest (off + sz) (nb + ret) r1
+      | x => x) = _
+    rw [hdf]
+    rcases hx : decodeFrame o (some off) sz (pcm.add (nb * r.st.channels)) (frame_size - nb) 0 r with ⟨out, r1⟩
+    cases out with
+    | ret ret =>
+      simp only [gzRes]
+      by_cases c1 : ret < 0
+      · simp only [if_pos c1]
+      · simp only [if_neg c1]
+        by_cases c2 : ret ≠ pfs
+        · simp only [if_pos c2]
+        · simp only [if_neg c2]
+          exact ih _ _ _
+    | abort => rfl
+    | hang => rfl
+
+theorem nativePlcLoop_gz (o : Oracle) (frame_size : Int) (pcm : Ptr) :
+    ∀ (n : Nat) (pcm_count : Int) (r : Run), (frame_size - pcm_count).toNat ≤ n →
+      nativePlcLoop o frame_size pcm pcm_count (gz r) = gzRes (nativePlcLoop o frame_size pcm pcm_count r) := by
+  intro n
+  induction n with
+  | zero =>
+    intro pcm_count r hn
+    rw [nativePlcLoop]
+    conv => rhs; rw [nativePlcLoop]
+    have hdf := decodeFrame_gz o none 0 (pcm.add (pcm_count * r.st.channels)) (frame_size - pcm_count) 0 r
+    show (match decodeFrame o none 0 (pcm.add (pcm_count * r.st.channels)) (frame_size - pcm_count) 0 (gz r) with
+      | (.ret ret, r1) => if ret < 0 then (Out.ret ret, r1) else if _h : ret = 0 then (Out.hang, r1)
+          else if _h2 : pcm_count + ret < frame_size then nativePlcLoop o frame_size pcm (pcm_count + ret) r1
+          else if pcm_count + ret ≠ frame_size then (Out.abort, r1)
+          else (Out.ret (pcm_count + ret), r1.setSt { r1.st with last_packet_duration := pcm_count + ret })
+      | x => x) = _
+    rw [hdf]
+    rcases hx : decodeFrame o none 0 (pcm.add (pcm_count * r.st.channels)) (frame_size - pcm_count) 0 r with ⟨out, r1⟩
+    cases out with
+    | ret ret =>
+      simp only [gzRes]
+      by_cases c1 : ret < 0
+      · simp only [if_pos c1]
+      · simp only [if_neg c1]
+        by_cases c2 : ret = 0
+        · simp only [dif_pos c2]
+        · simp only [dif_neg c2]
+          have c3 : ¬ pcm_count + ret < frame_size := by omega
+          simp only [dif_neg c3]
+          by_cases c4 : pcm_count + ret ≠ frame_size
+          · simp only [if_pos c4]
+          · simp only [if_neg c4]; rfl
+    | abort => rfl
+    | hang => rfl
+  | succ n ih =>
+    intro pcm_count r hn
+    rw [nativePlcLoop]
+    conv => rhs; rw [nativePlcLoop]
+    have hdf := decodeFrame_gz o none 0 (pcm.add (pcm_count * r.st.channels)) (frame_size - pcm_count) 0 r
+    show (match decodeFrame o none 0 (pcm.add (pcm_count * r.st.channels)) (frame_size - pcm_count) 0 (gz r) with
+      | (.ret ret, r1) => if ret < 0 then (Out.ret ret, r1) else if _h : ret = 0 then (Out.hang, r1)
+          else if _h2 : pcm_count + ret < frame_size then nativePlcLoop o frame_size pcm (pcm_count + ret) r1
+          else if pcm_count + ret ≠ frame_size then (Out.abort, r1)
+          else (Out.ret (pcm_count + ret), r1.setSt { r1.st with last_packet_duration := pcm_count + ret })
+      | x => x) = _
+    rw [hdf]
+    rcases hx : decodeFrame o none 0 (pcm.add (pcm_count * r.st.channels)) (frame_size - pcm_count) 0 r with ⟨out, r1⟩
+    cases out with
+    | ret ret =>
+      simp only [gzRes]
+      by_cases c1 : ret < 0
+      · simp only [if_pos c1]
+      · simp only [if_neg c1]
+        by_cases c2 : ret = 0
+        · simp only [dif_pos c2]
+        · simp only [dif_neg c2]
+          by_cases c3 : pcm_count + ret < frame_size
+          · simp only [dif_pos c3]
+            exact ih _ _ (by omega)
+          · simp only [dif_neg c3]
+            by_cases c4 : pcm_count + ret ≠ frame_size
+            · simp only [if_pos c4]
+            · simp only [if_neg c4]; rfl
+    | abort => rfl
+    | hang => rfl
+
+theorem nativePlc_gz (o : Oracle) (pcm : Ptr) (frame_size : Int) (r : Run) :
+    nativePlc o pcm frame_size (gz r) = gzRes (nativePlc o pcm frame_size r) := by
+  unfold nativePlc
+  show (if ¬ validateOk r.st = true then (Out.abort, gz r)
+    else if cmod frame_size (r.st.Fs / 400) ≠ 0 then (Out.ret BAD_ARG, gz r)
+    else nativePlcLoop o frame_size pcm 0 (gz r)) =
+    gzRes (if ¬ validateOk r.st = true then (Out.abort, r)
+    else if cmod frame_size (r.st.Fs / 400) ≠ 0 then (Out.ret BAD_ARG, r)
+    else nativePlcLoop o frame_size pcm 0 r)
+  split
+  · rfl
+  · split
+    · rfl
+    · exact nativePlcLoop_gz o _ _ _ _ _ (Nat.le_refl _)
+
+theorem fecGap_gz (o : Oracle) (pcm : Ptr) (gap : Int) (r : Run) :
+    fecGap o pcm gap (gz r) = gzRes (fecGap o pcm gap r) := by
+  unfold fecGap
+  by_cases c0 : gap ≠ 0
+  · rw [if_pos c0, if_pos c0, nativePlc_gz o]
+    rcases hx : nativePlc o pcm gap r with ⟨out, r1⟩
+    cases out with
+    | ret ret =>
+      simp only [gzRes, gz_st]
+      by_cases c1 : ret < 0
+      · simp only [if_pos c1]; rfl
+      · simp only [if_neg c1]
+        by_cases c2 : ret ≠ gap
+        · simp only [if_pos c2]
+        · simp only [if_neg c2]
+    | abort => rfl
+    | hang => rfl
+  · rw [if_neg c0, if_neg c0]; rfl
+
+theorem nativeFec_gz (o : Oracle) (pcm : Ptr)
+    (frame_size pfs pm pb pc off0 sz0 : Int) (r : Run) :
+    nativeFec o pcm frame_size pfs pm pb pc off0 sz0 (gz r) =
+      gzRes (nativeFec o pcm frame_size pfs pm pb pc off0 sz0 r) := by
+  unfold nativeFec
+  show (if frame_size < pfs ∨ pm = MODE_CELT ∨ r.st.mode = MODE_CELT then nativePlc o pcm frame_size (gz r)
+    else match fecGap o pcm (frame_size - pfs) (gz r) with
+      | (.ret v, r1) => if v < 0 then (Out.ret v, r1)
+        else match decodeFrame o (some off0) sz0 (pcm.add (r.st.channels * (frame_size - pfs))) pfs 1
+              (r1.setSt (setToc r1.st pm pb pfs pc)) with
+          | (.ret ret, r3) => if ret < 0 then (Out.ret ret, r3)
+            else (Out.ret frame_size, r3.setSt { r3.st with last_packet_duration := frame_size })
+          | x => x
+      | x => x) = _
+  by_cases c0 : frame_size < pfs ∨ pm = MODE_CELT ∨ r.st.mode = MODE_CELT
+  · rw [if_pos c0, if_pos c0]; exact nativePlc_gz o _ _ _
+  · rw [if_neg c0, if_neg c0, fecGap_gz o]
+    rcases hx : fecGap o pcm (frame_size - pfs) r with ⟨out, r1⟩
+    cases out with
+    | ret v =>
+      simp only [gzRes]
+      by_cases c1 : v < 0
+      · simp only [if_pos c1]
+      · simp only [if_neg c1]
+        have hdf := decodeFrame_gz o (some off0) sz0 (pcm.add (r.st.channels * (frame_size - pfs))) pfs 1
+          (r1.setSt (setToc r1.st pm pb pfs pc))
+        rw [gz_setSt] at hdf
+        simp only [gz_st]
+        have hz : setToc (zg r1.st) pm pb pfs pc = zg (setToc r1.st pm pb pfs pc) := rfl
+        rw [hz, hdf]
+        rcases hy : decodeFrame o (some off0) sz0 (pcm.add (r.st.channels * (frame_size - pfs))) pfs 1
+          (r1.setSt (setToc r1.st pm pb pfs pc)) with ⟨out2, r3⟩
+        cases out2 with
+        | ret ret =>
+          simp only [gzRes]
+          by_cases c2 : ret < 0
+          · simp only [if_pos c2]
+          · simp only [if_neg c2]; rfl
+        | abort => rfl
+        | hang => rfl
+    | abort => rfl
+    | hang => rfl
+
+theorem nativeFrames_gz (o : Oracle) (pcm : Ptr)
+    (frame_size pfs pm pb pc : Int) (sizes : List Nat) (off0 : Int) (sc : Bool) (r : Run) :
+    nativeFrames o pcm frame_size pfs pm pb pc sizes off0 sc (gz r) =
+      gzRes (nativeFrames o pcm frame_size pfs pm pb pc sizes off0 sc r) := by
+  unfold nativeFrames
+  have hfl := frameLoop_gz o pcm frame_size pfs sizes off0 0 (r.setSt (setToc r.st pm pb pfs pc))
+  rw [gz_setSt] at hfl
+  simp only [gz_st, zg_channels]
+  have hz : setToc (zg r.st) pm pb pfs pc = zg (setToc r.st pm pb pfs pc) := rfl
+  rw [hz, hfl]
+  rcases hx : frameLoop o pcm frame_size pfs sizes off0 0 (r.setSt (setToc r.st pm pb pfs pc)) with ⟨out, r2⟩
+  cases out with
+  | ret nb =>
+    simp only [gzRes]
+    by_cases c1 : nb < 0
+    · simp only [if_pos c1]
+    · simp only [if_neg c1]
+      cases sc with
+      | true => simp only [↓reduceIte]; rw [gz_push (by rfl)]; rfl
+      | false => simp only [Bool.false_eq_true, ↓reduceIte]; rfl
+  | abort => rfl
+  | hang => rfl
+
+/-- **`opus_decode_native`**: every path (argument checks, concealment, FEC, all frames of a packet, soft clip). -/
+theorem decodeNative_gz (o : Oracle) (data : Option Bytes) (len : Int) (pcm : Ptr) (frame_size fec : Int)
+    (sd sc : Bool) (r : Run) :
+    (decodeNative o data len pcm frame_size fec sd sc (gz r)).ret = (decodeNative o data len pcm frame_size fec sd sc r).ret ∧
+    (decodeNative o data len pcm frame_size fec sd sc (gz r)).packetOffset =
+      (decodeNative o data len pcm frame_size fec sd sc r).packetOffset ∧
+    (decodeNative o data len pcm frame_size fec sd sc (gz r)).run = gz (decodeNative o data len pcm frame_size fec sd sc r).run := by
+  have mk : ∀ (x y : Res') (po : Int), x = gzRes y →
+      (NativeOut.mk' x po).ret = (NativeOut.mk' y po).ret ∧ (NativeOut.mk' x po).packetOffset = (NativeOut.mk' y po).packetOffset ∧
+      (NativeOut.mk' x po).run = gz (NativeOut.mk' y po).run := by
+    intro x y po h; subst h; exact ⟨rfl, rfl, rfl⟩
+  by_cases c0 : ¬ validateOk r.st = true
+  · have L : decodeNative o data len pcm frame_size fec sd sc (gz r) = _ := if_pos c0
+    have R : decodeNative o data len pcm frame_size fec sd sc r = _ := if_pos c0
+    rw [L, R]; exact mk _ _ _ rfl
+  by_cases c1 : fec < 0 ∨ fec > 1
+  · have L : decodeNative o data len pcm frame_size fec sd sc (gz r) = _ := (if_neg c0).trans (if_pos c1)
+    have R : decodeNative o data len pcm frame_size fec sd sc r = _ := (if_neg c0).trans (if_pos c1)
+    rw [L, R]; exact mk _ _ _ rfl
+  by_cases c2 : (fec ≠ 0 ∨ len = 0 ∨ data.isNone = true) ∧ cmod frame_size (r.st.Fs / 400) ≠ 0
+  · have L : decodeNative o data len pcm frame_size fec sd sc (gz r) = _ := (if_neg c0).trans ((if_neg c1).trans (if_pos c2))
+    have R : decodeNative o data len pcm frame_size fec sd sc r = _ := (if_neg c0).trans ((if_neg c1).trans (if_pos c2))
+    rw [L, R]; exact mk _ _ _ rfl
+  by_cases c3 : len = 0 ∨ data.isNone = true
+  · have L : decodeNative o data len pcm frame_size fec sd sc (gz r) = _ :=
+      (if_neg c0).trans ((if_neg c1).trans ((if_neg c2).trans (if_pos c3)))
+    have R : decodeNative o data len pcm frame_size fec sd sc r = _ :=
+      (if_neg c0).trans ((if_neg c1).trans ((if_neg c2).trans (if_pos c3)))
+    rw [L, R]; exact mk _ _ _ (nativePlcLoop_gz o _ _ _ _ _ (Nat.le_refl _))
+  by_cases c4 : len < 0
+  · have L : decodeNative o data len pcm frame_size fec sd sc (gz r) = _ :=
+      (if_neg c0).trans ((if_neg c1).trans ((if_neg c2).trans ((if_neg c3).trans (if_pos c4))))
+    have R : decodeNative o data len pcm frame_size fec sd sc r = _ :=
+      (if_neg c0).trans ((if_neg c1).trans ((if_neg c2).trans ((if_neg c3).trans (if_pos c4))))
+    rw [L, R]; exact mk _ _ _ rfl
+  have L : decodeNative o data len pcm frame_size fec sd sc (gz r) = _ :=
+    (if_neg c0).trans ((if_neg c1).trans ((if_neg c2).trans ((if_neg c3).trans (if_neg c4))))
+  have R : decodeNative o data len pcm frame_size fec sd sc r = _ :=
+    (if_neg c0).trans ((if_neg c1).trans ((if_neg c2).trans ((if_neg c3).trans (if_neg c4))))
+  rw [L, R]
+  cases Framing.parseImpl sd ((data.getD []).take len.toNat) with
+  | err e => exact mk _ _ _ rfl
+  | oob => exact mk _ _ _ rfl
+  | abort => exact mk _ _ _ rfl
+  | ok p =>
+    by_cases c5 : fec ≠ 0
+    · simp only [if_pos c5]; exact mk _ _ _ (nativeFec_gz o _ _ _ _ _ _ _ _ _)
+    · simp only [if_neg c5]
+      by_cases c6 : (p.count : Int) * (Framing.samplesPerFrame (((data.getD []).take len.toNat).headD 0) r.st.Fs.toNat : Int) > frame_size
+      · have c6' : (p.count : Int) * (Framing.samplesPerFrame (((data.getD []).take len.toNat).headD 0) (gz r).st.Fs.toNat : Int) > frame_size := c6
+        rw [if_pos c6, if_pos c6']; exact mk _ _ _ rfl
+      · have c6' : ¬ ((p.count : Int) * (Framing.samplesPerFrame (((data.getD []).take len.toNat).headD 0) (gz r).st.Fs.toNat : Int) > frame_size) := c6
+        rw [if_neg c6, if_neg c6']; exact mk _ _ _ (nativeFrames_gz o _ _ _ _ _ _ _ _ _ _)
 
 end Opus.DecSkel
